@@ -91,13 +91,13 @@ def engine_cyc(bd, wd, quick, seed, traces, case_files, verdict):
     if nbeh == 0:
         raise vp.ToolError("EngineCycMC generated no behaviour:\n" + r_gen["out"][-2000:])
     tr = os.path.join(wd, "cycm_replay.ndjson")
-    ec.eng_seq(bd, tr, mode="replay", cyc=1, **{"in": beh})
+    ec.eng_seq(bd, tr, mode="replay", cyc=1, dump=1, **{"in": beh})
     traces.append((tr, "EngineCyc behaviours with predictions"))
     case_files[tr] = beh
     p = vp.run(["python3", os.path.join(vp.ROOT, "tools", "cyc_conform.py"), "compare", beh, tr])
     cmp_ = json.loads(p.stdout.strip().splitlines()[-1])
-    ev["predicted_behaviours"] = {k: cmp_[k] for k in ("behaviours", "queries_compared", "executor_runs_compared", "mismatches")}
-    drift = {"value": 0, "runs": 0, "model_err": 0}
+    ev["predicted_behaviours"] = {k: cmp_[k] for k in ("behaviours", "queries_compared", "executor_runs_compared", "state_snapshots_compared", "mismatches")}
+    drift = {"value": 0, "runs": 0, "state": 0, "model_err": 0}
     for m in cmp_["first"]:
         drift[m["kind"]] = drift.get(m["kind"], 0) + 1
     ev["first_mismatch"] = cmp_["first"][:1]
